@@ -84,27 +84,36 @@ def build(ctx):
 
     # ------------------------------------------------------------- P: slice bounds for every degree (symbolic loop index)
     def ob_slice_bounds():
-        loop = [n for n in ast.walk(f_N.node) if isinstance(n, ast.For)][0]
+        # the per-degree iteration is located by what it is (a for loop or a comprehension over range(...)), the coefficient vector by being the
+        # function's first parameter; the slices applied to it inside one iteration are collected with a symbolic degree i
+        param = f_N.node.args.args[0].arg
+        iters = []
+        for n in ast.walk(f_N.node):
+            if isinstance(n, ast.For) and isinstance(n.iter, ast.Call) and ast.unparse(n.iter.func) == "range" and isinstance(n.target, ast.Name):
+                iters.append((n.target.id, list(n.body)))
+            elif isinstance(n, (ast.ListComp, ast.GeneratorExp)) and len(n.generators) == 1 and isinstance(n.generators[0].iter, ast.Call) \
+                    and ast.unparse(n.generators[0].iter.func) == "range" and isinstance(n.generators[0].target, ast.Name):
+                iters.append((n.generators[0].target.id, [ast.Expr(value=n.elt)]))
         i = z3.Int("i")
-        I.pc, I.decisions, I.dpos, I.new_alts, I.cur_safety, I.fresh_count, I.depth, I.no_fork = [i >= 0], [], 0, [], [], 0, 1, 0
-        fr = Frame(mod, {loop.target.id: i}, None, fname=f_N.qualname, fnode=f_N.node)
         bounds = []
-        for st in loop.body:
-            # execute plain assignments of scalars; collect the slices applied to `coefficients`
-            if isinstance(st, ast.Assign) and all(isinstance(t, (ast.Name, ast.Tuple)) for t in st.targets):
-                I.exec_stmt(st, fr)
-                continue
-            for n in ast.walk(st):
-                if isinstance(n, ast.Subscript) and isinstance(n.value, ast.Name) and n.value.id == "coefficients" and isinstance(n.slice, ast.Slice):
+        for tname, body in iters:
+            I.pc, I.decisions, I.dpos, I.new_alts, I.cur_safety, I.fresh_count, I.depth, I.no_fork = [i >= 0], [], 0, [], [], 0, 1, 0
+            fr = Frame(mod, {tname: i}, None, fname=f_N.qualname, fnode=f_N.node)
+            for st in body:
+                hits = [n for n in ast.walk(st) if isinstance(n, ast.Subscript) and isinstance(n.value, ast.Name) and n.value.id == param and isinstance(n.slice, ast.Slice)]
+                for n in hits:
                     lo = I.eval(n.slice.lower, fr) if n.slice.lower is not None else 0
                     hi = I.eval(n.slice.upper, fr) if n.slice.upper is not None else None
                     bounds.append((lo, hi))
-        if not bounds:
-            raise Unsupported("no slice of `coefficients` found in the loop body of make_N_invariants")
+                if not hits and isinstance(st, ast.Assign) and all(isinstance(t, (ast.Name, ast.Tuple)) for t in st.targets):
+                    try:
+                        I.exec_stmt(st, fr)
+                    except Unsupported:
+                        pass
 
         def replay(m):
             from chmpy.shape.shape_descriptors import make_N_invariants
-            L = 3
+            L = 6
             c = np.zeros((L + 1) ** 2, dtype=complex)
             base = make_N_invariants(c.copy())
             bad = None
@@ -117,7 +126,14 @@ def build(ctx):
                 if changed != [deg]:
                     bad = {"coefficient_index": k, "degree": deg, "invariants_changed": changed}
                     break
-            return {"native_inputs": bad or "unit impulses in each coefficient, L=3", "reproduced": bad is not None, "observed": bad}
+            return {"native_inputs": bad or "unit impulses in each coefficient, L=6", "reproduced": bad is not None, "observed": bad}
+        if not bounds or any(hi is None for lo, hi in bounds):
+            def fb():
+                r_ = replay({})
+                return None if not r_["reproduced"] else {"input": r_["native_inputs"], "observed": r_["observed"]}
+            ctx.pattern("shape_descriptors.make_N_invariants/loop/slice_bounds", False, fallback=fb, fn=f_N,
+                        clause="for every degree the coefficients read are exactly those of that degree (iteration not recognised: decided by unit impulses on the real function)")
+            return replay
         for k, (lo, hi) in enumerate(bounds):
             ctx.prove(f"shape_descriptors.make_N_invariants/loop/slice_bounds/{k}", [i >= 0], z3.And(z(lo) == i * i, z(hi) == (i + 1) * (i + 1)),
                       clause="for every degree i >= 0 the slice of coefficients read is exactly [i^2, (i+1)^2): N_i depends only on the coefficients of degree i",
